@@ -56,3 +56,26 @@ func OCIShapes() []NamedOCI {
 		}},
 	}
 }
+
+// OddOCIShapes: OCI specs a runtime could hand over that are legal Go values but unusual:
+// environment entries without '=', empty paths, nil optional members. Only used where the
+// oracle is "does not crash" (C08); the semantic checks take well-formed specs.
+func OddOCIShapes() []NamedOCI {
+	return []NamedOCI{
+		{"odd-env", func() *oci.Spec {
+			return &oci.Spec{Process: &oci.Process{Env: []string{"TERM", "", "=novalue", "A=b", "A=c", "B"}}}
+		}},
+		{"odd-paths", func() *oci.Spec {
+			return &oci.Spec{
+				Process: &oci.Process{Env: []string{"VAR_spec"}, User: oci.User{UID: 4294967295, GID: 4294967295, AdditionalGids: []uint32{0, 0, 4294967295}}},
+				Mounts:  []oci.Mount{{Destination: ""}, {Destination: "relative/path"}, {Destination: "/"}, {Destination: "//"}, {Destination: "/ctr/d0"}, {Destination: "/ctr/d0"}},
+				Hooks:   &oci.Hooks{Prestart: []oci.Hook{{}}, Poststop: nil},
+				Linux: &oci.Linux{
+					Devices:   []oci.LinuxDevice{{Path: ""}, {Path: "/dev/d0"}, {Path: "/dev/d0"}},
+					Resources: &oci.LinuxResources{Devices: []oci.LinuxDeviceCgroup{{Allow: true}, {Allow: false, Type: "a"}}},
+					IntelRdt:  &oci.LinuxIntelRdt{},
+				},
+			}
+		}},
+	}
+}
